@@ -25,13 +25,14 @@ _SORT = {INT: z3.IntSort, BOOL: z3.BoolSort, REAL: z3.RealSort, STR: z3.StringSo
 
 class Sym:
     """Immutable symbolic scalar: z3 term + python type tag."""
-    __slots__ = ('z', 't', 'ratio', 'src')
+    __slots__ = ('z', 't', 'ratio', 'src', 'parts')
 
     def __init__(self, z, t, ratio=None, src=None):
         self.z = z
         self.t = t
         self.ratio = ratio      # (int numerator, int denominator) when this real is a quotient of two ints
         self.src = src          # for str(int): the integer term it was formatted from (int(str(i)) == i exactly)
+        self.parts = None       # segment representation of a concatenated string (pyvc.segstr)
 
     def __repr__(self):
         return 'Sym<%s:%s>' % (self.t, self.z)
@@ -340,7 +341,9 @@ def concretize(v):
             return z.as_string()
         if v.t == REAL and z3.is_rational_value(z):
             return Fraction(z.numerator_as_long(), z.denominator_as_long())
-        return Sym(z, v.t, v.ratio, v.src)
+        r = Sym(z, v.t, v.ratio, v.src)
+        r.parts = v.parts
+        return r
     return v
 
 
@@ -622,9 +625,17 @@ class Engine:
     def str_binop(self, op, a, b, node=None):
         ta, tb = pytype(a), pytype(b)
         if isinstance(op, ast.Add) and ta == STR and tb == STR:
-            return Sym(z3.Concat(zterm(a, STR), zterm(b, STR)), STR)
+            from . import segstr
+            return segstr.concat(a, b)
         if isinstance(op, ast.Add):
             raise PyRaise('TypeError', 'str + %s' % tb, node=node)
+        if isinstance(op, ast.Mult) and isinstance(a, str) and tb in (INT, BOOL) and len(a) >= 1:
+            # 'lit' * n for a symbolic n: a fresh string of the right length and content (lit)*
+            n = zterm(b, INT)
+            r = fresh(STR, 'repeat')
+            self.assume(z3.Length(r.z) == z3.If(n > 0, n, 0) * len(a))
+            self.assume(z3.InRe(r.z, z3.Star(z3.Re(z3.StringVal(a)))))
+            return r
         raise Unsupported('string binop %s' % type(op).__name__)
 
     def compare(self, op, a, b, node=None):
@@ -1388,6 +1399,11 @@ class Engine:
         if pytype(base) == STR:
             if not is_sym(base) and not is_sym(lo) and not is_sym(hi):
                 return base[lo:hi]
+            if hi is None and isinstance(lo, int) and lo >= 0 and getattr(base, 'parts', None):
+                from . import segstr
+                r = segstr.drop_prefix(self, base, lo)
+                if r is not None:
+                    return r
             sz = zterm(base, STR)
             n = z3.Length(sz)
 
@@ -1475,6 +1491,9 @@ class Engine:
             return self.instantiate(fn, args, kwargs, node)
         if isinstance(fn, ModRef):
             return self.loader.call_external(fn.dotted, self, args, kwargs, node)
+        if type(fn).__name__ == 'NamedTupleType':
+            from .externals import make_namedtuple
+            return make_namedtuple(self, fn, args, kwargs)
         if isinstance(fn, type) and fn in (list, dict, set, tuple):
             return fn()
         if isinstance(fn, Obj):
